@@ -29,7 +29,7 @@ def c05(c):
     c.assumptions += ["end-to-end tier: connections transferred to the poller by Upgrade (BlockingModTrasferConnToPoller) run the open handler outside the "
                       "connection's job queue and, under EPOLLONESHOT, the message callbacks too; the harness reports those under the signatures "
                       "*-transferred-* (same causes as the three C14 findings recorded for the unchanged tree)"]
-    oargs = ["-n", n(c, 6, 150)]
+    oargs = ["-n", n(c, 4, 150)]
     if c.tier == "thorough":
         oargs += ["-full", "-ws", "8", "-http", "4"]
     c.harness("overlap", oargs, overlay=True, timeout=3000)
@@ -78,7 +78,9 @@ MANIFEST = {
              "handlers sleep / yield / block, raw RFC 6455 clients write text / binary (fragmented) messages, Ping, Pong and Close frames back to back while the callback "
              "of an earlier frame is held; every callback (OnOpen, OnMessage, OnDataFrame, ping / pong / close handler, OnClose, the engine's close hook, HTTP handlers) "
              "logs its entry under a per-connection mutex: never two in progress, entries in wire order, close exactly once and after everything queued before it "
-             "(peer half-close mid-handler, Close frame, Close() inside a callback or from another goroutine, Connection: close).",
+             "(peer half-close mid-handler, Close frame, Close() inside a callback or from another goroutine, Connection: close); and per cell a stop phase: "
+             "Engine.Stop / Engine.Shutdown(ctx) begins while every connection has a callback held and more work queued behind it - work may be dropped there, "
+             "but nothing may run during or after the close callback.",
         note="Trusted: Coq kernel, extraction, OCaml driver, Go harness, the cooperative scheduler and the atomicity reduction (code between Unlock and the next "
              "Lock is goroutine-local; by inspection). The nbhttp consequence (handlers/callbacks of one connection never overlap) follows from nbhttp routing "
              "them through Execute; it is checked end to end by cmd/overlap (sampled schedules of real engines, no theorem). Connections transferred to the poller "
